@@ -144,6 +144,7 @@ func runAction(t *T, action func(*T)) (invalid bool, skipped bool) {
 			if _, ok := r.(invalidData); ok {
 				invalid = true
 				skipped = t.draws == draws
+				t.failOnError() // skipping an action should not hide its non-fatal failures
 			} else {
 				panic(r)
 			}
